@@ -133,12 +133,18 @@ theorem T.CmpOk.flip {K : Type} {cmp : K → K → Ordering} (h : T.CmpOk cmp) :
 /-- ASCII lower-casing of one byte (the harness' case-folding comparator) -/
 def lowerByte (c : UInt8) : UInt8 := if 65 ≤ c && c ≤ 90 then c + 32 else c
 
-/-- the three comparators the correspondence harness installs with `qtreetbl_set_compare`:
-    0 = `qtreetbl_byte_cmp`, 1 = reverse order, 2 = ASCII case folding (identifies keys) -/
+/-- a key without its trailing blanks -/
+def stripBlanks (a : Bytes) : Bytes := (a.reverse.dropWhile (· == 0x20)).reverse
+
+/-- the comparators the correspondence harness installs with `qtreetbl_set_compare`:
+    0 = `qtreetbl_byte_cmp`, 1 = reverse order, 2 = ASCII case folding (identifies keys of equal
+    length), 3 = trailing blanks ignored (identifies keys of DIFFERENT lengths), 4 = the byte order
+    computed by a comparator with a side effect (it sets errno): the byte order in the model -/
 def harnessCmp (mode : Nat) : Bytes → Bytes → Ordering :=
   match mode with
   | 1 => fun a b => byteCmp b a
   | 2 => fun a b => byteCmp (a.map lowerByte) (b.map lowerByte)
+  | 3 => fun a b => byteCmp (stripBlanks a) (stripBlanks b)
   | _ => byteCmp
 
 /-- every comparator used by the harness satisfies the hypothesis of the C01–C04 theorems -/
@@ -147,6 +153,7 @@ theorem harnessCmp_ok (mode : Nat) : T.CmpOk (harnessCmp mode) := by
   split
   · exact byteCmp_ok.flip
   · exact byteCmp_ok.comap (fun (a : Bytes) => a.map lowerByte)
+  · exact byteCmp_ok.comap stripBlanks
   · exact byteCmp_ok
 
 end Qlibc.Tree
